@@ -44,7 +44,7 @@ m = {
     ],
     "checks": checks,
     "not_applicable": na,
-    "notes": "All checks run the current /repo working tree (deepali is imported from /repo/src); known findings are listed in known_findings.json.",
+    "notes": "All checks run the current /repo working tree (deepali is imported from /repo/src). known_findings.json lists two recorded findings (C16 ncc_loss mask; C20 disp(other grid) detached from the parameters), for which the checks print KNOWN-FINDING and exit 0, and 32 defects repaired by fix: commits in /repo. evidence/<id>.json is written by complete runs only (tools that apply a seeded change and --only runs write under work/); evidence/thorough/ keeps the last thorough run. DESIGN.md section 10 is the build report.",
 }
 json.dump(m, open(os.path.join(ROOT, "MANIFEST.json"), "w"), indent=1)
 print("checks:", [c["property_id"] for c in checks], "not_applicable:", [n["property_id"] for n in na])
